@@ -619,20 +619,21 @@ def mechanism(layer):
     return "plain-" + layer.kind
 
 
-def isolate(psd, V):
+def isolate(psd, V, ref=None):
     """layers that violate the viewport law when composited alone (with the groups around them and, for a
     clipping layer, its base) -> (mechanism of the first culprit | None, names)"""
     W, H = psd.width, psd.height
+    ref = ref or (0, 0, W, H)
     culprits = []
 
     def law_fails(keep):
         flt = lambda x: x.is_visible() and (x.is_group() or any(x is k for k in keep))
         try:
-            a = cc.real_composite(psd, layer_filter=flt)
+            a = cc.real_composite(psd, viewport=ref, layer_filter=flt)
             b = cc.real_composite(psd, viewport=V, layer_filter=flt)
         except Exception:
             return True
-        return cc.compare(b, crop(a, (0, 0, W, H), V)) is not None
+        return cc.compare(b, crop(a, ref, V)) is not None
 
     def visit(layers):
         for l in layers:
@@ -689,8 +690,11 @@ def fixtures(ctx, st, limit_area, max_files):
         if bad:
             ctx.fail(f"C13/range/{bad['what']}/fixture/{rel}", "composite of a fixture not finite or outside [0,1]", {"fixture": rel}, bad,
                      "finite values in [0,1]")
-        for cls, V, ref in viewports(ctx.rng, W, H):
-            if cls == "straddling" or ref != canvas:
+        # a viewport of the canvas size at another origin, against a reference that covers both
+        shifted = ("shifted", (1, 1, W + 1, H + 1), (0, 0, W + 2, H + 2))
+        refs = {canvas: full}
+        for cls, V, ref in viewports(ctx.rng, W, H) + [shifted]:
+            if cls == "straddling" or (ref != canvas and cls != "shifted"):
                 continue      # one full-size reference per fixture is enough; straddling is covered by generated documents
             ctx.count(("fixture", rel, V), n=max(1, (V[2] - V[0]) * (V[3] - V[1])))
             ctx.hist("laws", f"fixture-viewport/{cls}")
@@ -700,9 +704,16 @@ def fixtures(ctx, st, limit_area, max_files):
                 ctx.fail(f"C13/viewport/{cls}/exception/{type(e).__name__}/fixture/{rel}", f"composite(viewport={V}) raises {type(e).__name__}: {str(e)[:120]}",
                          {"fixture": rel, "viewport": list(V)}, type(e).__name__, "the crop of the full composite")
                 continue
-            mm = cc.compare(sub, crop(full, canvas, V))
+            if ref not in refs:
+                try:
+                    refs[ref] = cc.real_composite(psd, viewport=ref)
+                except Exception as e:
+                    ctx.fail(f"C13/viewport/{cls}/exception/{type(e).__name__}/fixture/{rel}", f"composite(viewport={ref}) raises {type(e).__name__}",
+                             {"fixture": rel, "viewport": list(ref)}, type(e).__name__, "a composite")
+                    continue
+            mm = cc.compare(sub, crop(refs[ref], ref, V))
             if mm is not None:
-                mech, layers = isolate(psd, V)
+                mech, layers = isolate(psd, V, ref)
                 ctx.hist("fixture_viewport_failures", f"{mech}:{rel}")
                 if mech is None:
                     ctx.fail(f"C13/viewport/{cls}/fixture/{rel}/{mm['what']}",
@@ -818,12 +829,26 @@ def run(ctx: core.Run):
 
 def C11_model_coverage():
     return {"modelled": ["as C11: composite() with viewport / layer_filter, Compositor, _get_group viewport restriction and paste back, "
-                         "early exits of apply, backdrop removal, _clip, _divide"],
-            "opaque": ["float32 rounding", "fixtures with effects / vector masks / fills / adjustments: relations checked on the real code only",
-                       "channel decompression and the reader/writer (C04, C01)"]}
+                         "early exits of apply, backdrop removal, _clip, _divide",
+                         "as C11 (Model/CompositeFx.lean): fill layers, vector masks, the vector stroke, overlay effects, stroke effects "
+                         "(the drawing a parameter), adjustment layers, force"],
+            "opaque": ["float32 rounding", "what is drawn for fills / vector masks / strokes / effects (aggdraw, scipy, skimage): a parameter of the model; "
+                       "the relations on documents and fixtures that carry them are checked on the real code",
+                       "channel decompression and the reader/writer (C04, C01)", "the API edit operations themselves (C09, C15, C16): only their "
+                       "effect on the composite before / after save -> reopen is observed here"]}
 
 
 NOTES = [
+    "proved (Props/C13Fx.lean) about the effect-carrying model (Model/CompositeFx.lean): result_in_unit_interval_fx, hidden_noop_fx, "
+    "outside_viewport_noop_fx, adjustment_noop, zero_opacity_noop_fx (pixel / fill layers and groups with any overlays AND stroke effects: "
+    "the overlays are painted with the layer's alpha, which carries the layer opacity, and the stroke effect's opacity is multiplied by the "
+    "layer opacity - repaired 59737c8), zero_opacity_overlay_needs_layer_opacity (the variant in which the overlay's alpha omits the layer "
+    "opacity paints: decided witness), zero_opacity_stroke_effect_needs_layer_opacity (pre-repair witness), transparent_noop_fx (partial: no "
+    "stroke effects) + transparent_stroke_effect_paints, viewport_is_crop_fx (partial: what is drawn for the stroke effects does not depend "
+    "on the viewport, fxListConst) + viewport_stroke_effect_differs (known finding), noop_insert_fx, outside_pixel_is_noop_fx",
+    "wider search (c13_fx.py): the laws on effect-carrying documents; no-op layers that carry effects; the laws under custom layer filters "
+    "(accept all / accept named hidden layers) on nested groups with hidden members of every relative extent; save -> reopen after an API "
+    "edit (clipping flag, visibility, blend mode, opacity) at every position of clip runs of length 1-3 and on random documents",
     "proved (Props/C13.lean): result_in_unit_interval, hidden_noop, outside_viewport_noop, transparent_noop, zero_opacity_noop, "
     "viewport_is_crop_covered, passthrough_group_transparent_inside, passthrough_group_transparent",
     "correspondence-only: the general viewport law beyond viewport_is_crop_covered (a layer that meets the two viewports in DIFFERENT "
